@@ -118,6 +118,49 @@ def run(prog: Program, col: Collector, tier: str, refs: Optional[Refs] = None, c
                   f.loc(resh[0]) if resh else f.loc())
         raises = [r for r in ast.walk(f.node) if isinstance(r, ast.Raise) and any(isinstance(a, ast.If) and rv in norm(a.test) and "in" in norm(a.test) for a in f.module.ancestors(r))]
         col.check(bool(raises), construct + "::real variables", "summing along a real input raises", "a real input among the reduced variables of a plate sum is not rejected", f.loc())
+    # ---------------------------------------------------------------- R13.5 integration is linear: integer variables are summed with add
+    col.rule("R13.5", "Integrate rules sum the non-real reduced variables with ops.add", floor=2)
+    for reg in cat.registrations:
+        g_ = reg.target
+        if g_ is None or not reg.pattern or isinstance(g_.node, ast.Lambda) or refs.resolve(reg.pattern[0]) != "funsor.integrate.Integrate":
+            continue
+        for c in ast.walk(g_.node):
+            if isinstance(c, ast.Call) and isinstance(c.func, ast.Attribute) and c.func.attr == "reduce" and len(c.args) == 2 and isinstance(c.args[1], ast.BinOp) and isinstance(c.args[1].op, ast.Sub) \
+                    and "reduced" in norm(c.args[1].left):
+                o = cat.resolve_op(g_.module, c.args[0]) if isinstance(c.args[0], (ast.Name, ast.Attribute)) else None
+                from .. import axioms
+                ab = axioms.identify(cat, o) if o is not None else None
+                col.check(ab == "ADD", f"{g_.fq}::{norm(c)[:60]}", "the remaining (integer) reduced variables are summed with add",
+                          f"`{norm(c)[:60]}` reduces the remaining variables with `{norm(c.args[0])}`: an integral is linear in the measure, so the integer variables of a mixture are summed "
+                          "with ops.add (in linear space), whatever op the measure's own normaliser uses", g_.loc(c))
+    # ---------------------------------------------------------------- R13.6 after alignment only the aligned factors are read
+    col.rule("R13.6", "once a Gaussian was aligned, its raw white_vec / prec_sqrt are not read again in the same function", floor=2)
+    for g_ in prog.funcs.values():
+        if isinstance(g_.node, ast.Lambda):
+            continue
+        als = [st for st in ast.walk(g_.node) if isinstance(st, ast.Assign) and isinstance(st.value, ast.Call) and norm(st.value.func).endswith("align_gaussian") and len(st.value.args) >= 2
+               and isinstance(st.value.args[1], ast.Name)]
+        for a in als:
+            X = st_name = a.value.args[1].id
+            stale = [y for y in ast.walk(g_.node) if isinstance(y, ast.Attribute) and y.attr in ("white_vec", "prec_sqrt") and isinstance(y.value, ast.Name) and y.value.id == X
+                     and getattr(y, "lineno", 0) > a.lineno]
+            col.check(not stale, f"{g_.fq}::align_gaussian(…, {X})", f"after the alignment only the aligned factors of `{X}` are used",
+                      f"`{norm(stale[0]) if stale else ''}` is read after `{X}` was aligned: the raw factor still has `{X}`'s own order of real inputs and batch layout, so it is combined "
+                      "with the other operand's blocks under the wrong inputs whenever the two layouts differ", g_.loc(stale[0]) if stale else g_.loc(a))
+    # ---------------------------------------------------------------- R13.7 the rank test of the marginalisation helper
+    col.rule("R13.7", "what remains after integrating a block out is decided by comparing the rank with the size of THAT block", floor=1)
+    h = prog.funcs.get("funsor.gaussian::Gaussian._marginalize_after_split")
+    if h is None:
+        raise AnalysisError("anchor Gaussian._marginalize_after_split not found")
+    blk_a = h.positional[3]
+    dims = {norm(st.targets[0]): norm(st.value) for st in walk_no_nested(h.node) if isinstance(st, ast.Assign) and isinstance(st.targets[0], ast.Name) and ".shape[" in norm(st.value)}
+    tests = [n_ for n_ in walk_no_nested(h.node) if isinstance(n_, ast.If) and "rank" in norm(n_.test)]
+    for t_ in tests:
+        names = [y.id for y in ast.walk(t_.test) if isinstance(y, ast.Name) and y.id in dims]
+        ok = bool(names) and all(dims[nm].startswith(blk_a + ".") for nm in names)
+        col.check(ok, f"{h.fq}::if {norm(t_.test)}", f"the rank is compared with the size of the integrated block `{blk_a}`",
+                  f"`{norm(t_.test)}` compares the rank with {', '.join(f'{nm} = {dims[nm]}' for nm in names) or 'something else'}: information about the remaining inputs is left exactly "
+                  f"when rank > dim({blk_a}); comparing with the other block drops (or invents) the Gaussian over the remaining inputs for rank-deficient factors", h.loc(t_))
     # ---------------------------------------------------------------- R13.4
     col.rule("R13.4", "offsets and block splits follow the inputs in order (shared with C12 R12.1 / R12.2)", floor=2)
     sub = Collector("C12")
